@@ -315,12 +315,20 @@ def run(chk, drv):
                         # after decoding: set exactly when the reference says so
                         try:
                             back = cls().parse(data)
-                            got = bp_presence(back, md)
+                            got = bp_presence(back, md)      # first: any read materialises defaults, and is_set reports those
                             want = ref_presence(b.refs[ci], data, md)
                             for name in want:
                                 if name in got and got[name] != want[name]:
                                     chk.fail("presence-differs-from-reference", dict(inp, checked=name),
                                              "betterproto=%s reference=%s bytes=%s" % (got[name], want[name], data.hex()))
+                            # "recovered correctly": the decoded message holds what was set, whatever was decoded earlier in
+                            # this process (the matrix decodes non-default and default values of every type in turn)
+                            if bytes(back) != data:
+                                chk.fail("decoded-message-reencodes-differently", inp, "%s -> %s" % (data.hex(), bytes(back).hex()))
+                            elif way != "from_dict" and not (back == m):
+                                # (from_dict is fed include_default_values output, which names every member of a oneof of a
+                                # nested value: what such a message holds is D26 territory, its bytes are compared above)
+                                chk.fail("decoded-message-differs", inp, "%r vs %r" % (back, m))
                         except Exception as e:
                             chk.fail("decode-or-reference-raises", inp, repr(e))
                         if drv and way in ("ctor", "assign"):
